@@ -22,11 +22,29 @@ type c16Op struct {
 	run  func(tpl *textwire.Template, t Tree) (result string, dataChanged bool)
 }
 
+// two struct types of one name and different shapes (declared in different functions), one per data map
+func c16CardA() any {
+	type card struct {
+		Title string
+		N     int
+	}
+	return card{Title: "tA", N: 1}
+}
+
+func c16CardB() any {
+	type card struct {
+		N     int
+		Extra bool
+		Title string
+	}
+	return card{N: 2, Extra: true, Title: "tB"}
+}
+
 func c16Data(i int) map[string]any {
 	if i == 0 {
-		return map[string]any{"name": "Ann", "items": []any{1, 2}, "flag": true}
+		return map[string]any{"name": "Ann", "items": []any{1, 2}, "flag": true, "card": c16CardA()}
 	}
-	return map[string]any{"name": "Bob<b>", "items": []any{}, "flag": false, "extra": map[string]any{"k": []int{1}}}
+	return map[string]any{"name": "Bob<b>", "items": []any{}, "flag": false, "extra": map[string]any{"k": []int{1}}, "card": c16CardB()}
 }
 
 func c16Tree(cfg int) Tree {
@@ -36,7 +54,7 @@ func c16Tree(cfg int) Tree {
 		"ok.tw":       "@use(\"lay\")@insert(\"title\", name)@insert(\"body\")@each(i in items)@component(\"card\", {n: i})@slot{{ loop.iter }}@end@end@end@if(flag)F@end{{ {b: 1, a: 2}.a }}@end",
 		"fail.tw":     "start {{ name }}\n@each(i in items){{ i }}@end\n{{ name.nope() }}",
 		"fail2.tw":    "@use(\"lay\")@insert(\"body\"){{ 1 / 0 }}@end",
-		"plain.tw":    "plain {{ name.upper() }} {{ items.len() }}",
+		"plain.tw":    "plain {{ name.upper() }} {{ items.len() }} {{ card.title }}{{ card.n }}",
 		"err.tw":      "custom error page",
 		"failloop.tw": "<ol>@each(i in [1, 2, 3])<li>{{ i }}</li>@if(loop.iter == 2){{ i.nope() }}@end@end</ol>@for(j = 0; j < 2; j++)[{{ j }}]@end",
 		"loops.tw":    "<ul>@each(i in items)<li>{{ i }}</li>@end</ul>@for(j = 0; j < 2; j++)[{{ j }}]@end",
